@@ -16,7 +16,7 @@ package parser
 //@                          forall(i, 0 <= i && i < len(s), vcChar(s[i]))
 //@ pred DevName(s string) = len(s) >= 1 && alnum(s[0]) && alnum(s[len(s)-1]) &&
 //@                          forall(i, 0 <= i && i < len(s), devChar(s[i]))
-//@ pred QName(d string) = exists(p, 0 < p && p < len(d), exists(q, p < q && q < len(d),
+//@ opaque pred QName(d string) = exists(p, 0 < p && p < len(d), exists(q, p < q && q < len(d),
 //@        d[p] == '/' && d[q] == '=' &&
 //@        VCName(d[:p]) && VCName(d[p+1:q]) && DevName(d[q+1:])))
 
@@ -51,8 +51,8 @@ package parser
 //@   ensures[C07] implies(vendor == "", class == kind)
 //@   ensures[C07] implies(vendor != "", class != "" && noByte(vendor, '/') &&
 //@                                      kind == vendor + "/" + class)
-//@   ensures[C07] implies(v != "" && c != "" && noByte(v, '/') && kind == v + "/" + c,
-//@                        vendor == v && class == c)
+//@   ensures[C07] trig(v + "/" + c, implies(v != "" && c != "" && noByte(v, '/') && kind == v + "/" + c,
+//@                        vendor == v && class == c))
 //@   assert at return: implies(kind == v + "/" + c, kind[len(v)] == '/')
 
 //@ func ParseDevice(device string) (vendor, class, name string)
@@ -62,14 +62,16 @@ package parser
 //@   ensures[C07] implies(vendor != "", class != "" && name != "" &&
 //@                        noByte(vendor, '/') && noByte(vendor, '=') && noByte(class, '=') &&
 //@                        device == vendor + "/" + class + "=" + name)
-//@   ensures[C07] implies(v != "" && c != "" && n != "" && v[0] != '/' &&
+//@   ensures[C07] trig(v + "/" + c + "=" + n, implies(v != "" && c != "" && n != "" && v[0] != '/' &&
 //@                        noByte(v, '/') && noByte(v, '=') && noByte(c, '=') &&
 //@                        device == v + "/" + c + "=" + n,
-//@                        vendor == v && class == c && name == n)
+//@                        vendor == v && class == c && name == n))
 //@   assert at return: implies(device == v + "/" + c + "=" + n, device[len(v) + 1 + len(c)] == '=')
 
 //@ func ParseQualifiedName(device string) (vendor, class, name string, err error)
 //@   pure
+//@   deterministic
+//@   reveal QName
 //@   logical v, c, n string
 //@   ensures[C07] implies(err == nil, VCName(vendor) && VCName(class) && DevName(name) &&
 //@                                    device == vendor + "/" + class + "=" + name)
@@ -80,15 +82,17 @@ package parser
 //@                        device[:len(vendor)] == vendor &&
 //@                        device[len(vendor)+1 : len(vendor)+1+len(class)] == class &&
 //@                        device[len(vendor)+1+len(class)+1:] == name)
-//@   ensures[C07] implies(VCName(v) && VCName(c) && DevName(n) &&
+//@   ensures[C07] trig(v + "/" + c + "=" + n, implies(VCName(v) && VCName(c) && DevName(n) &&
 //@                        device == v + "/" + c + "=" + n,
-//@                        err == nil && vendor == v && class == c && name == n)
+//@                        err == nil && vendor == v && class == c && name == n))
 
 //@ func IsQualifiedName(device string) (r bool)
 //@   pure
+//@   deterministic
+//@   ensures[C07] r == succeeds(ParseQualifiedName, device)
 //@   logical v, c, n string
 //@   ensures[C07] implies(r, QName(device))
-//@   ensures[C07] implies(VCName(v) && VCName(c) && DevName(n) && device == v + "/" + c + "=" + n, r)
+//@   ensures[C07] trig(v + "/" + c + "=" + n, implies(VCName(v) && VCName(c) && DevName(n) && device == v + "/" + c + "=" + n, r))
 //@ func QualifiedName(vendor, class, name string) (r string)
 //@   pure
 //@   ensures[C07] r == vendor + "/" + class + "=" + name
